@@ -9,7 +9,7 @@ Decidable with this technique, and claimed:
      the item size limit and connection limit that reach the codec / the semaphore are the configured ones, one store object
      reaches every listener, the selected policy object is the one built, in both runtime types (see runtime_checks.py).
 Not decidable here (no code of this crate to encode): equivalence of tokio's two schedulers and of worker counts, SO_REUSEPORT
-distribution, ports, and that the 1 Hz tick follows real time.
+distribution, ports.  The clock task (SystemTimer::run) is executed over a model of tokio's interval (runtime_checks.run_timer).
 """
 import z3
 from .common import *
@@ -156,6 +156,7 @@ def run(tier, seed, replay_path=None):
     run_headroom(ck, tier)
     from . import runtime_checks
     runtime_checks.run_plumbing(ck, tier)
+    runtime_checks.run_timer(ck, tier)
     return ck.finish()
 
 
